@@ -651,6 +651,16 @@ func (w *World) findFunc(key string) *ssa.Function {
 
 // ---------------------------------------------------------------- prelude
 
+// prelude: the background theory of every query.
+//
+// Intended model (the consistency argument; cover/prelude/pre is only a smoke test): SV is the set of
+// byte sequences shorter than 2^48; sv(s) is the content of s when 0 <= len(s) < 2^48 (the empty
+// sequence otherwise); svlen / svbyte / svcat are length, indexing and concatenation (svcat of two
+// values whose lengths add up to 2^48 or more is unconstrained); strof(v) is some string of length
+// |v| at offset 0 of an array holding v; strcmp is the lexicographic order; catarr(a,b) names an
+// array holding the bytes of a followed by the bytes of b.  Every axiom that relates Str and SV is
+// guarded by the 2^48 bound: without the guard, "svlen(sv s) = len s for all len s >= 0" contradicts
+// "every value has a representative shorter than 2^48" (found by the must-fail corpus, see DESIGN.md).
 func (w *World) prelude() string {
 	var sb strings.Builder
 	sb.WriteString(`(set-option :produce-models true)
@@ -667,10 +677,10 @@ func (w *World) prelude() string {
 (declare-fun svbyte (SV Int) (_ BitVec 8))
 (declare-fun idx (Int Int) Int)
 (assert (forall ((o Int) (i Int)) (! (= (idx o i) (+ o i)) :pattern ((idx o i)))))
-(assert (forall ((s Str)) (! (=> (<= 0 (s.len s)) (= (svlen (sv s)) (s.len s))) :pattern ((sv s)))))
-(assert (forall ((s Str) (i Int)) (! (=> (and (<= 0 i) (< i (s.len s))) (= (svbyte (sv s) i) (bytes (s.arr s) (idx (s.off s) i)))) :pattern ((svbyte (sv s) i)))))
+(assert (forall ((s Str)) (! (=> (and (<= 0 (s.len s)) (< (s.len s) 281474976710656)) (= (svlen (sv s)) (s.len s))) :pattern ((sv s)))))
+(assert (forall ((s Str) (i Int)) (! (=> (and (<= 0 i) (< i (s.len s)) (< (s.len s) 281474976710656)) (= (svbyte (sv s) i) (bytes (s.arr s) (idx (s.off s) i)))) :pattern ((svbyte (sv s) i)))))
 (assert (forall ((a Str) (b Str) (i Int)) (! (and (=> (and (<= 0 i) (< i (s.len a))) (= (bytes (catarr a b) i) (bytes (s.arr a) (idx (s.off a) i)))) (=> (and (<= (s.len a) i) (< i (+ (s.len a) (s.len b)))) (= (bytes (catarr a b) i) (bytes (s.arr b) (idx (s.off b) (- i (s.len a))))))) :pattern ((bytes (catarr a b) i)))))
-(assert (forall ((a Str) (b Str)) (! (=> (and (<= 0 (s.len a)) (<= 0 (s.len b))) (and (= (sv (mkstr (catarr a b) 0 (+ (s.len a) (s.len b)))) (svcat (sv a) (sv b))) (=> (= (s.len b) 0) (= (svcat (sv a) (sv b)) (sv a))) (=> (= (s.len a) 0) (= (svcat (sv a) (sv b)) (sv b))))) :pattern ((catarr a b)))))
+(assert (forall ((a Str) (b Str)) (! (=> (and (<= 0 (s.len a)) (<= 0 (s.len b)) (< (+ (s.len a) (s.len b)) 281474976710656)) (and (= (sv (mkstr (catarr a b) 0 (+ (s.len a) (s.len b)))) (svcat (sv a) (sv b))) (=> (= (s.len b) 0) (= (svcat (sv a) (sv b)) (sv a))) (=> (= (s.len a) 0) (= (svcat (sv a) (sv b)) (sv b))))) :pattern ((catarr a b)))))
 (declare-fun strof (SV) Str)
 (assert (forall ((v SV)) (! (and (= (sv (strof v)) v) (<= 0 (s.len (strof v))) (<= 0 (s.off (strof v))) (< (+ (s.off (strof v)) (s.len (strof v))) 281474976710656)) :pattern ((strof v)))))
 (declare-fun strcmp (SV SV) Int)
